@@ -13,7 +13,6 @@ import (
 	"github.com/markkurossi/mpc/compiler/utils"
 	"github.com/markkurossi/mpc/env"
 	"github.com/markkurossi/mpc/ot"
-	"github.com/markkurossi/mpc/p2p"
 	"pgregory.net/rapid"
 
 	"verifharness/internal/ev"
@@ -135,7 +134,7 @@ func run(cs Case) ev.Outcome {
 
 	// Streaming session.
 	d := xport.NewDuplex(cs.Frags, cs.Frags)
-	gConn, eConn := p2p.NewConn(d.A), p2p.NewConn(d.B)
+	gConn, eConn := d.Conns()
 	params := utils.NewParams()
 	params.Config = &env.Config{Rand: gen.NewDRBG(cs.Seed, 1)}
 	gOT := ot.NewCO(gen.NewDRBG(cs.Seed, 2))
